@@ -1,6 +1,7 @@
 package engg
 
 import (
+	"fmt"
 	"go/ast"
 	"go/build"
 	"go/importer"
@@ -54,13 +55,70 @@ func NewChecker() *Checker {
 	return &Checker{fset: fset, imp: imp}
 }
 
+// dirImporter resolves imports of the module that contains dir from that module's
+// directories (go/build would ask `go list` in the process's working directory, which
+// is not the scenario's module), and everything else through the source importer.
 type dirImporter struct {
-	imp types.ImporterFrom
-	dir string
+	c      *Checker
+	dir    string
+	root   string // module root ("" if none)
+	module string
+	local  map[string]*types.Package
 }
 
-func (d dirImporter) Import(path string) (*types.Package, error) {
-	return d.imp.ImportFrom(path, d.dir, 0)
+func newDirImporter(c *Checker, dir string) *dirImporter {
+	d := &dirImporter{c: c, dir: dir, local: map[string]*types.Package{}}
+	for p := dir; ; p = filepath.Dir(p) {
+		if data, err := os.ReadFile(filepath.Join(p, "go.mod")); err == nil {
+			for _, l := range strings.Split(string(data), "\n") {
+				if strings.HasPrefix(l, "module ") {
+					d.root, d.module = p, strings.TrimSpace(strings.TrimPrefix(l, "module "))
+				}
+			}
+			break
+		}
+		if p == filepath.Dir(p) {
+			break
+		}
+	}
+	return d
+}
+
+func (d *dirImporter) Import(path string) (*types.Package, error) {
+	if d.module != "" && (path == d.module || strings.HasPrefix(path, d.module+"/")) {
+		if p, ok := d.local[path]; ok {
+			if p == nil {
+				return nil, fmt.Errorf("import cycle through %s", path)
+			}
+			return p, nil
+		}
+		d.local[path] = nil // in progress
+		pdir := filepath.Join(d.root, strings.TrimPrefix(strings.TrimPrefix(path, d.module), "/"))
+		ents, err := os.ReadDir(pdir)
+		if err != nil {
+			return nil, err
+		}
+		var files []*ast.File
+		for _, e := range ents {
+			n := e.Name()
+			if e.IsDir() || !strings.HasSuffix(n, ".go") || strings.HasSuffix(n, "_test.go") {
+				continue
+			}
+			f, err := parser.ParseFile(d.c.fset, filepath.Join(pdir, n), nil, 0)
+			if err != nil {
+				return nil, err
+			}
+			files = append(files, f)
+		}
+		if len(files) == 0 {
+			return nil, fmt.Errorf("no Go files in %s", pdir)
+		}
+		conf := types.Config{Importer: d, Error: func(error) {}}
+		pkg, _ := conf.Check(path, d.c.fset, files, nil)
+		d.local[path] = pkg
+		return pkg, nil
+	}
+	return d.c.imp.ImportFrom(path, d.dir, 0)
 }
 
 func typeKey(t types.Type) string {
@@ -108,7 +166,7 @@ func (c *Checker) Check(dir string, prefixes map[string]string) PostObs {
 		}
 	}
 	info := &types.Info{Uses: map[*ast.Ident]types.Object{}, Types: map[ast.Expr]types.TypeAndValue{}, Defs: map[*ast.Ident]types.Object{}}
-	conf := types.Config{Importer: dirImporter{c.imp, dir}, Error: func(err error) {
+	conf := types.Config{Importer: newDirImporter(c, dir), Error: func(err error) {
 		if len(obs.Errors) < 20 {
 			obs.Errors = append(obs.Errors, err.Error())
 		}
